@@ -173,8 +173,8 @@ func dirArtifactStatus(
 	}
 
 	// Any child Artifact that's out-of-date or not committed will flip this
-	// value.
-	status.ContentsMatch = true
+	// value. A directory whose manifest isn't in the cache can't be up-to-date.
+	status.ContentsMatch = status.HasChecksum && status.ChecksumInCache
 	status.ChildrenStatus = make(map[string]*artifact.Status)
 
 	var manifest directoryManifest
